@@ -24,6 +24,8 @@ class Ctx:
         self.res = res
         self.cache: dict[str, list[Envelope]] = {}
         self.helpers_seen: dict[str, FuncInfo] = {}
+        self.tcache: dict[str, list | None] = {}
+        self.tuple_helpers: dict[str, tuple[FuncInfo, list[Envelope]]] = {}
 
     def helper_for(self, caller: FuncInfo):
         def helper_envelopes(call: ast.Call) -> list[Envelope] | None:
@@ -32,11 +34,14 @@ class Ctx:
                     fq = c.func.fqn
                     if fq not in self.cache:
                         self.cache[fq] = []  # recursion guard
-                        it = Interp(c.func, lambda _c: None)
+                        it = Interp(c.func, self.helper_for(c.func))  # helpers may wrap other helpers (recursion guard above)
                         it.run()
                         envs = []
                         for kind, node, st, payload in it.events:
                             if kind == "return":
+                                if isinstance(payload, ast.Tuple):
+                                    envs = None  # type: ignore[assignment]  # a tuple-returning helper: see tuples_for
+                                    break
                                 e = it.envelope_of_return(payload, st)
                                 if e is None:
                                     envs = None  # type: ignore[assignment]
@@ -48,6 +53,45 @@ class Ctx:
             return None
 
         return helper_envelopes
+
+    def tuples_for(self, caller: FuncInfo):
+        """summary of a helper whose every return is a tuple of one fixed length: per position, whether it can be None and
+        the envelopes it can be (None when some return puts anything else there)"""
+        def helper_tuples(call: ast.Call):
+            for c in self.res.resolve_call(caller, call):
+                if c.kind == "repo" and c.func is not None and c.func.module.name.startswith("octave_mcp.mcp") and c.func.cls:
+                    fq = "tuple:" + c.func.fqn
+                    if fq not in self.tcache:
+                        self.tcache[fq] = None
+                        it = Interp(c.func, self.helper_for(c.func))
+                        it.run()
+                        rets = [(st, payload) for kind, node, st, payload in it.events if kind == "return"]
+                        if rets and all(isinstance(pl, ast.Tuple) for _st, pl in rets) and len({len(pl.elts) for _st, pl in rets}) == 1:
+                            width = len(rets[0][1].elts)
+                            summ = []
+                            for i in range(width):
+                                maybe_none = False
+                                envs: list[Envelope] | None = []
+                                for st, pl in rets:
+                                    el = pl.elts[i]
+                                    if isinstance(el, ast.Constant) and el.value is None:
+                                        maybe_none = True
+                                        continue
+                                    e = it.envelope_of_return(el, st)
+                                    if e is None:
+                                        envs = None
+                                        break
+                                    envs.extend(e)
+                                if envs is not None:
+                                    envs = sorted(set(envs), key=lambda e: e.describe())
+                                    if envs:
+                                        self.tuple_helpers[c.func.fqn] = (c.func, envs)
+                                summ.append((maybe_none, envs))
+                            self.tcache[fq] = summ
+                    return self.tcache[fq]
+            return None
+
+        return helper_tuples
 
 
 def check(run: Run) -> None:
@@ -70,6 +114,7 @@ def check(run: Run) -> None:
     for modname, qual, has_valid in TOOLS:
         fi = run.project.mod(modname).func(qual)
         it = Interp(fi, ctx.helper_for(fi))
+        it.helper_tuples = ctx.tuples_for(fi)
         it.run()
         mod = fi.module
         n_states = sum(len(s) for s in it.in_states.values())
@@ -132,6 +177,12 @@ def check(run: Run) -> None:
         if not ok:
             run.violation("R10.6", f.module, f.qualname, "envelope helper returns", "an error-envelope helper does not hard-code validation_status UNVALIDATED (and valid False)",
                           envelopes=[e.describe() for e in envs] if envs else None)
+
+    for fq, (f, envs) in sorted(ctx.tuple_helpers.items()):
+        ok = all(e.status == "UNVALIDATED" and e.valid in ("F", ABSENT) for e in envs)
+        run.instance("R10.6", f"{f.module.relpath}:{f.node.lineno}", f"{f.qualname}: every envelope in a returned tuple has validation_status UNVALIDATED", ok=ok)
+        if not ok:
+            run.violation("R10.6", f.module, f.qualname, "envelope helper returns", "an error-envelope helper does not hard-code validation_status UNVALIDATED (and valid False)", envelopes=[e.describe() for e in envs])
 
     # CLI commands: status is a local string
     for modname, qual in CLI:
